@@ -211,6 +211,11 @@ impl C12 {
             let at = r.usize(p.rules.len() + 1);
             p.rules.insert(at, marker_rule(tag));
         }
+        // two data files with byte-identical content (a copied template): still two pairs
+        if wl.docs.len() > 1 && r.chance(1, 5) {
+            wl.docs[1] = wl.docs[0].clone();
+            rep.count("gen.identical_data_files", 1);
+        }
         // data files: flat or nested; rules files: flat, nested, or the same base name in
         // different directories (team-a/checks.guard, team-b/checks.guard)
         let nested = r.chance(1, 3);
